@@ -711,6 +711,15 @@ func oidFromExtKeyUsage(eku ExtKeyUsage) (oid asn1.ObjectIdentifier, ok bool) {
 			return pair.oid, true
 		}
 	}
+	// The remaining exported ExtKeyUsage constants are generated together
+	// with their OIDs (extended_key_usage.go); the parser resolves them
+	// through ekuConstants, so issuance must accept them as well.
+	for s, c := range ekuConstants {
+		if c == eku {
+			oid, ok = ekuOIDs[s]
+			return
+		}
+	}
 	return
 }
 
@@ -2396,7 +2405,7 @@ func buildExtensions(template *Certificate, _ []byte) (ret []pkix.Extension, err
 			if oid, ok := oidFromExtKeyUsage(u); ok {
 				oids = append(oids, oid)
 			} else {
-				panic("internal error")
+				return nil, errors.New("x509: unknown extended key usage")
 			}
 		}
 
